@@ -302,6 +302,105 @@ func c17CasRace(out *ndWriter, n int, sd int64) {
 	}
 }
 
+// c17Sessions: whole two-party sessions (circuit.Garbler / circuit.Evaluator) that share one circuit value and overlap
+// in time.  The evaluator of session j is held after its OT step (a slow peer that is still evaluating) while the
+// sessions after it run from start to end; then it is let go.  Every garbler and every evaluator must return
+// Compute's outputs whatever the other sessions did meanwhile.  With one P the scratch a session returns is the
+// next one handed out, so a session that lets go of its garbling too early sees another session's labels.
+func c17Sessions(out *ndWriter, n int, sd int64) {
+	rng := rand.New(rand.NewSource(sd*6700417 + 1717))
+	for i := 0; i < n; i++ {
+		res := &Result{Case: i, Class: "overlapping-sessions", Nontrivial: true}
+		oldP := 0
+		if i%2 == 0 {
+			oldP = runtime.GOMAXPROCS(1)
+		}
+		restore := func() {
+			if oldP > 0 {
+				runtime.GOMAXPROCS(oldP)
+			}
+		}
+		nin, n0 := 16, 8
+		tc := randomCircuit(rng, nin, 200+rng.Intn(600), n0, 3+rng.Intn(6))
+		circ, _ := mkTwoParty(tc)
+		ns := 2 + rng.Intn(3)
+		srs := make([]*sessResult, ns)
+		xs := make([]*big.Int, ns)
+		ys := make([]*big.Int, ns)
+		holds := make([]chan struct{}, ns)
+		reached := make([]chan struct{}, ns)
+		var wg sync.WaitGroup
+		for j := 0; j < ns; j++ {
+			j := j
+			xs[j], ys[j] = big.NewInt(int64(rng.Intn(256))), big.NewInt(int64(rng.Intn(256)))
+			holds[j], reached[j] = make(chan struct{}), make(chan struct{})
+			var once sync.Once
+			o := sessOpts{ot: []string{"co", "cot"}[j%2], randSeed: uint64(sd)<<32 + uint64(i)*100 + uint64(j) + 77, corruptAt: -1, timeout: 120 * time.Second}
+			if j < ns-1 {
+				// held: the evaluator stops after its OT step until the later sessions are through
+				o.eAfterOT = func() {
+					once.Do(func() {
+						close(reached[j])
+						select {
+						case <-holds[j]:
+						case <-time.After(60 * time.Second):
+						}
+					})
+				}
+			}
+			wg.Add(1)
+			go func() {
+				defer wg.Done()
+				srs[j] = runWhole(circ, xs[j], ys[j], o)
+			}()
+			if j < ns-1 {
+				select {
+				case <-reached[j]:
+					time.Sleep(20 * time.Millisecond) // the garbler gets past its own OT step and waits for the result labels
+				case <-time.After(30 * time.Second):
+				}
+			}
+		}
+		// the last session runs to its end unhindered; then the held ones are let go, the oldest last
+		done := make(chan struct{})
+		go func() { wg.Wait(); close(done) }()
+		for j := ns - 2; j >= 0; j-- {
+			time.Sleep(30 * time.Millisecond)
+			close(holds[j])
+		}
+		select {
+		case <-done:
+		case <-time.After(150 * time.Second):
+			res.viol("sessions-stall", "%d overlapping sessions on one circuit value do not all finish", ns)
+			out.put(res)
+			restore()
+			continue
+		}
+		for j, sr := range srs {
+			want, err := circ.Compute([]*big.Int{xs[j], ys[j]})
+			if err != nil {
+				res.drift("Compute failed: %v", err)
+				break
+			}
+			switch {
+			case sr.gPanic != "" || sr.ePanic != "":
+				res.viol("panic:overlapping-sessions", "session %d of %d overlapping on one circuit value panics: garbler %q evaluator %q", j, ns, sr.gPanic, sr.ePanic)
+			case sr.gErr != nil || sr.eErr != nil || sr.stalled:
+				res.viol("session-fails:overlapping-sessions", "session %d of %d overlapping on one circuit value (its peer was slow, later sessions ran meanwhile) fails: garbler %v, evaluator %v, stalled %v", j, ns, sr.gErr, sr.eErr, sr.stalled)
+			default:
+				for k := range want {
+					if k >= len(sr.gOut) || k >= len(sr.eOut) || sr.gOut[k].Cmp(want[k]) != 0 || sr.eOut[k].Cmp(want[k]) != 0 {
+						res.viol("wrong-result:overlapping-sessions", "session %d of %d overlapping on one circuit value: garbler %v evaluator %v, Compute gives %v", j, ns, sr.gOut, sr.eOut, want)
+						break
+					}
+				}
+			}
+		}
+		out.put(res)
+		restore()
+	}
+}
+
 func c17Main(args []string) error {
 	if len(args) < 2 {
 		return fmt.Errorf("usage: vh c17 stress|casrace ...")
@@ -323,6 +422,18 @@ func c17Main(args []string) error {
 			fmt.Sscan(args[3], &n)
 		}
 		c17Stress(tr, out, n, seed())
+		return nil
+	case "sessions":
+		out, err := newND(args[1])
+		if err != nil {
+			return err
+		}
+		defer out.close()
+		n := 6
+		if len(args) > 2 {
+			fmt.Sscan(args[2], &n)
+		}
+		c17Sessions(out, n, seed())
 		return nil
 	case "casrace":
 		out, err := newND(args[1])
